@@ -39,7 +39,7 @@ ASSUMPTIONS = [
     'rain depth and pairing are taken from the reference classification of '
     'the loaded tables (C02/C03 check them)',
 ]
-SEQ_STEPS = ['classify-A', 'grid-0.5', 'grid-1', 'recession', 'rise',
+SEQ_STEPS = ['grid-0.5', 'grid-1', 'grid-25', 'recession', 'rise',
              'rise-ref']
 COARSE = ('uniform', 2.0, 3600, 4.0)
 CONFIGS = [
@@ -109,10 +109,9 @@ def sequence_space(depth):
         for _ in range(k):
             seq.append(SEQ_STEPS[i % n])
             i //= n
-        return {'kind': 'sequence', 'steps': seq[::-1]}
-    return Space('step sequences up to length %d over %r' % (depth,
-                                                             SEQ_STEPS),
-                 sum(sizes), decode)
+        return {'kind': 'sequence', 'steps': ['classify-A'] + seq[::-1]}
+    return Space('classify, then every sequence of up to %d steps over %r'
+                 % (depth, SEQ_STEPS), sum(sizes), decode)
 
 
 def spaces(tier):
@@ -130,17 +129,18 @@ def spaces(tier):
 _SEQ_MEMO = {}
 
 
-def state_after(steps):
+def state_after(steps, dataset=0):
     """Bytes of the database after running `steps` (failed ones included)
-    from the loaded C20 dataset; memoised per prefix"""
+    from a loaded C20 dataset; memoised per prefix"""
     from mc.checks import c20
     steps = tuple(steps)
-    if steps in _SEQ_MEMO:
-        return _SEQ_MEMO[steps]
+    key = (dataset,) + steps
+    if key in _SEQ_MEMO:
+        return _SEQ_MEMO[key]
     if not steps:
-        blob = c20.initial_state(0)[1]
+        blob = c20.initial_state(dataset)[1]
     else:
-        blob = state_after(steps[:-1])
+        blob = state_after(steps[:-1], dataset)
         path = c20.materialise(blob)
         try:
             cs.run_main(c20.argv_of(steps[-1], path))
@@ -150,7 +150,7 @@ def state_after(steps):
             c20.cleanup(path)
     if len(_SEQ_MEMO) > 4000:
         _SEQ_MEMO.clear()
-    _SEQ_MEMO[steps] = blob
+    _SEQ_MEMO[key] = blob
     return blob
 
 
@@ -273,6 +273,12 @@ def check_tables(connection, s, j):
     for start in rows:
         if start not in dict(t['recession_interval']):
             viol.append(('recession-zeta-row-without-interval', repr(start)))
+    for start, _off in t['recession_interval']:
+        if start not in rows:
+            viol.append(('interval-without-crossings',
+                         'recession_interval %d has an offset but no '
+                         'crossing at any level: it cannot belong to the '
+                         'master curve' % start))
     # ---- rise rows
     rows = {}
     for start, n, v in t['rising_interval_zeta']:
@@ -293,6 +299,12 @@ def check_tables(connection, s, j):
             viol.append(('rise-crossing:' + why[0],
                          'rise %d paired with storm %d (depth %r, levels '
                          '%r): %s' % (start, storm, depth, y, why[1])))
+    for start, _off in t['rising_interval']:
+        if start not in rows:
+            viol.append(('interval-without-crossings',
+                         'rising_interval %d has an offset but no crossing '
+                         'at any level: it cannot belong to the master '
+                         'curve' % start))
     for table in ('rising_interval_zeta', 'recession_interval_zeta'):
         used = {n for _, n, _ in t[table]}
         if used - grid:
